@@ -505,6 +505,23 @@ impl Endpoint {
             }
         };
 
+        // Only a valid Retry token makes the destination CID one that we chose ourselves; with any
+        // other token (or an unusable one) it is client-chosen and RFC9000 §7.2 applies after all.
+        if header.dst_cid.len() < 8 && token.retry_src_cid.is_none() {
+            debug!(
+                "rejecting connection due to invalid DCID length {}",
+                header.dst_cid.len()
+            );
+            return Some(DatagramEvent::Response(self.initial_close(
+                header.version,
+                addresses,
+                &crypto,
+                header.src_cid,
+                TransportError::PROTOCOL_VIOLATION("invalid destination CID length"),
+                buf,
+            )));
+        }
+
         let incoming_idx = self.incoming_buffers.insert(IncomingBuffer::default());
         self.index
             .insert_initial_incoming(header.dst_cid, incoming_idx);
